@@ -129,20 +129,47 @@ def check_mstep_shapes(P, R):
             R.check(ok, "SHAPE.mstep", f.key, f"{src(t)} = {src(v)}", "element-wise A2 / A1", "D is not the element-wise quotient A2 / A1 of the two supervector-sized accumulators", st.lineno)
 
 
-def _acc_index(P, f, e):
-    """Which component (0 = A1, 1 = A2) of the per-class results does this accumulator collect?  Follows
-    `a, b = reduce_iadd(la, lb)` and `la = [acc[i] for acc in <param>]`."""
+def _call_component(P, f, call, index, depth=0):
+    """Component (0 = A1, 1 = A2) of the per-class results that result `index` of `call` collects, and whether the
+    collection ranges over a whole parameter list.  Follows reduce_iadd(la, lb) with la = [acc[i] for acc in <list>]
+    and helpers that return such a call."""
+    du = get_defuse(f, P)
+    fn = src(call.func).split(".")[-1]
+    if fn == "reduce_iadd":
+        if index is None or index >= len(call.args):
+            return None
+        a = call.args[index]
+        if isinstance(a, ast.Name):
+            for d2 in du.reaching(du.stmt_of(call), a.id):
+                if isinstance(d2.value, ast.ListComp) and isinstance(d2.value.elt, ast.Subscript) and len(d2.value.generators) == 1 and not d2.value.generators[0].ifs and isinstance(d2.value.generators[0].iter, ast.Name):
+                    return const_value(d2.value.elt.slice)
+        if isinstance(a, ast.ListComp) and isinstance(a.elt, ast.Subscript):
+            return const_value(a.elt.slice)
+        return None
+    if depth < 2:
+        tg = [t[1] for t in P.resolve_callee(call.func, f) if t[0] == "repo"]
+        if tg:
+            callee = tg[0]
+            for r in [x for x in walk_no_nested(callee.node) if isinstance(x, ast.Return) and x.value is not None]:
+                rv = r.value
+                if isinstance(rv, ast.Call):
+                    return _call_component(P, callee, rv, index, depth + 1)
+                if isinstance(rv, ast.Tuple) and index is not None and index < len(rv.elts) and isinstance(rv.elts[index], ast.Name):
+                    return _acc_index(P, callee, rv.elts[index], depth + 1)
+    return None
+
+
+def _acc_index(P, f, e, depth=0):
+    """Which component (0 = A1, 1 = A2) of the per-class results does this accumulator collect?"""
     du = get_defuse(f, P)
     if not isinstance(e, ast.Name):
         return None
     st = du.stmt_of(e)
     for d in du.reaching(st, e.id):
-        if d.how == "unpack" and isinstance(d.value, ast.Call) and d.index is not None and d.index < len(d.value.args):
-            a = d.value.args[d.index]
-            if isinstance(a, ast.Name):
-                for d2 in du.reaching(d.stmt, a.id):
-                    if isinstance(d2.value, ast.ListComp) and isinstance(d2.value.elt, ast.Subscript):
-                        return const_value(d2.value.elt.slice)
+        if d.how == "unpack" and isinstance(d.value, ast.Call) and d.index is not None:
+            r = _call_component(P, f, d.value, d.index, depth)
+            if r is not None:
+                return r
     return None
 
 
